@@ -105,3 +105,10 @@ package meta
 //@   trusted
 //@   assigns nothing
 //@   ensures result != nil
+
+// a compiled list knows the leafs that make up its key (the compiler fails on a key name it cannot resolve)
+//@ func (y *List) KeyMeta() []Leafable
+//@   trusted
+//@   assigns nothing
+//@   noalloc
+//@   ensures forall k int :: 0 <= k && k < len(result) ==> result[k] != nil
